@@ -105,7 +105,10 @@ class Check(Property):
                 op = {"op": "meas", "f": "plus_minus", "q": {"m": frac_s(n), "u": uu}, "error": {"m": frac_s(s), "u": [[eu, "1/1"]]},
                       "relative": form == "pm_q_rel"}
             self.bump("form." + form)
-            out.append({"kind": "mk", "form": form, "ops": [op]})
+            ops = [op]
+            if form == "nums" and s >= 0 and n != 0:
+                ops.append({"op": "meas", "f": "rel", "n": frac_s(n), "s": frac_s(s)})
+            out.append({"kind": "mk", "form": form, "ops": ops})
         for _ in range(500 if self.tier == "quick" else 8000):
             fam = rng.choice(sorted(FAM))
             u1, u2 = rng.choice(FAM[fam]), rng.choice(FAM[fam])
@@ -183,8 +186,11 @@ class Check(Property):
 
     @staticmethod
     def meas_j(m):
-        return {"n": m.magnitude.nominal_value, "s": m.magnitude.std_dev,
-                "u": sorted([k, frac_s(regs.to_frac(e))] for k, e in m._units.items())}
+        """through the public accessors .value / .error (and .rel, kept aside)"""
+        return {"n": m.value.magnitude, "s": m.error.magnitude,
+                "u": sorted([k, frac_s(regs.to_frac(e))] for k, e in m._units.items()),
+                "rel": (m.rel if m.magnitude.nominal_value != 0 else None),
+                "vu": str(m.value.units) == str(m.units) and str(m.error.units) == str(m.units)}
 
     def impl(self, c):
         u = regs.ureg("float")
@@ -192,6 +198,10 @@ class Check(Property):
         if k == "mk":
             o = c["ops"][0]
             if o["f"] == "mk":
+                extra = []
+                if len(c["ops"]) > 1:
+                    extra = [capture(lambda: u.Measurement(float(Fraction(o["value"]["num"])), float(Fraction(o["error"]["num"])), o["units"][0][0]).rel)]
+
                 def run():
                     args = [self.arg(u, o["value"])]
                     if "error" in o:
@@ -202,7 +212,7 @@ class Check(Property):
                     if "units" in o:
                         args.append(u.Unit(u.UnitsContainer({kk: int(Fraction(e)) for kk, e in o["units"]})))
                     return self.meas_j(u.Measurement(*args))
-                return [capture(run)]
+                return [capture(run)] + extra
             return [capture(lambda: self.meas_j(self.arg(u, o["q"]).plus_minus(self.arg(u, o["error"]), relative=o["relative"])))]
         if k == "convert":
             def run():
@@ -223,7 +233,10 @@ class Check(Property):
             return a == m["err"] or {a, m["err"]} <= {"TypeError", "AttributeError"} or {a, m["err"]} <= {"ValueError", "IndexError", "AssertionError"}
         if "ok" in i and "ok" in m and c["kind"] in ("mk", "convert"):
             a, b = i["ok"], m["ok"]
-            return canon(a["u"]) == canon(b["u"]) and close(a["n"], Fraction(b["n"])) and close(a["s"], Fraction(b["s"]))
+            ok = canon(a["u"]) == canon(b["u"]) and close(a["n"], Fraction(b["n"])) and close(a["s"], Fraction(b["s"]))
+            if ok and len(io) > 1:
+                ok = "ok" in io[1] and "ok" in mo[1] and close(io[1]["ok"], Fraction(mo[1]["ok"]))
+            return ok
         return canon(i) == canon(m)
 
     def nontrivial(self, c, io):
@@ -290,6 +303,10 @@ class Check(Property):
                 v.append(f"{tag}: raised {r}")
                 return v
             got = r["ok"]
+            if not got.get("vu", True):
+                v.append(f"{tag}: .value / .error are not in the measurement's units")
+            if n != 0 and got.get("rel") is not None and not close(got["rel"], abs(s / n)):
+                v.append(f"{tag}: .rel = {got['rel']}, built from {n} +/- {s} (|error / value| = {float(abs(s / n))})")
             if not (close(got["n"], n) and close(got["s"], s) and [x[0] for x in got["u"]] == [x[0] for x in units]):
                 v.append(f"{tag}: reports value {got['n']} error {got['s']} units {got['u']}, built from {n} +/- {s} {units}")
             return v
@@ -308,7 +325,7 @@ class Check(Property):
             if not close(r["ok"]["n"], plain):
                 v.append(f"{tag}: nominal value {r['ok']['n']} differs from the plain quantity's {plain}")
             if oa == 0 and ob == 0 and n != 0 and want_n != 0:
-                if not close(abs(r["ok"]["s"] / r["ok"]["n"]), abs(s / n)):
+                if not close(r["ok"]["rel"], abs(s / n)):
                     v.append(f"{tag}: the relative error changed under a multiplicative conversion")
             return v
         if k == "notation":
